@@ -14,8 +14,8 @@
    of std::thread::scope (trusted, DESIGN section 6).  What it does exhibit: the partition, the
    per-worker sum from 0, an arbitrary completion order [sigma] of the workers, each storing its result in
    the slot of its spawn index, and the main thread folding the slots in spawn order from 0. *)
-From Coq Require Import List Arith Lia.
-From OV Require Import Base.Panic Base.Arith Model.Vector.
+From Coq Require Import List Arith Lia ZArith.
+From OV Require Import Base.Panic Base.Arith Base.Flat Model.Vector.
 Import ListNotations.
 
 (* (start, end) of worker i of t over a vector of length len *)
@@ -87,5 +87,14 @@ Definition run_sched (sigma : list nat) (t : nat) (v w : list T) : res T :=
     let* slots := complete js sigma (repeat None t) in
     join_all slots zero
   else Panic Guard.
+
+(* the answer of the executor kind vec.pardot: the observed worker count, the threaded product repeated
+   [reps] times, then the sequential product (a panic of dot_f64 ends the answer) *)
+Variable flat : T -> list Z.
+Definition pardot_out (t reps : nat) (v w : list T) : list Z :=
+  match pardot t v w with
+  | Panic k => fl_nat t ++ fl_panic k
+  | Ok x => fl_nat t ++ concat (repeat (flat x) reps) ++ fl_res flat (dot v w)
+  end.
 
 End ParDot.
